@@ -155,7 +155,8 @@ def Fz (ex : Bool) (self : String) : Expr → Bool
   | .and_ es => Ff true self (.and_ es)
   | .or_ es => Ff true self (.or_ es)
   | .for_ l i t s b => if ex then Fx [] self (.for_ l i t s b) else Ff true self (.for_ l i t s b)
-  | .fn ps rest body => Ff true self (.fn ps rest body)
+  | .fn ps rest body => Ff true self (.fn ps rest body) ||
+      (okRest rest && decide (ps ++ rest.toList).Nodup && ps.all okParam && !body.isEmpty && FzList ex "" body)
   | .defn name ps rest body => Ff true self (.defn name ps rest body) ||
       (okRest rest && okName name && (name != "") && decide (ps ++ rest.toList).Nodup && ps.all okParam && !body.isEmpty
         && FzList ex name body)
@@ -182,7 +183,8 @@ def Fs (ex : Bool) (self : String) : Expr → Bool
   | .and_ es => if ex then Fx [] self (.and_ es) else Ff true self (.and_ es)
   | .or_ es => if ex then Fx [] self (.or_ es) else Ff true self (.or_ es)
   | .for_ l i t s b => if ex then Fx [] self (.for_ l i t s b) else Ff true self (.for_ l i t s b)
-  | .fn ps rest body => if ex then Fx [] self (.fn ps rest body) else Ff true self (.fn ps rest body)
+  | .fn ps rest body => (if ex then Fx [] self (.fn ps rest body) else Ff true self (.fn ps rest body)) ||
+      (okRest rest && decide (ps ++ rest.toList).Nodup && ps.all okParam && !body.isEmpty && FzList ex "" body)
   | .assign a b => if ex then Fx [] self (.assign a b) else Ff true self (.assign a b)
   | .bad a => if ex then Fx [] self (.bad a) else Ff true self (.bad a)
   | .break_ l => if ex then Fx [] self (.break_ l) else Ff true self (.break_ l)
@@ -219,9 +221,19 @@ theorem fs_of_stmt {ex : Bool} {self : String} {e : Expr} (h : (if ex then Fx []
 /-- a statement of a body: as before, or a nested `defn` with a body of `FzList` -/
 theorem fs_cases {ex : Bool} {self : String} {e : Expr} (h : Fs ex self e = true) :
     (if ex then Fx [] self e else Ff true self e) = true ∨
-      ∃ name ps rest body, e = .defn name ps rest body ∧ okRest rest = true ∧ okName name = true ∧ name ≠ ""
-        ∧ (ps ++ rest.toList).Nodup ∧ (∀ p ∈ ps, okParam p = true) ∧ body ≠ [] ∧ FzList ex name body = true := by
+      (∃ name ps rest body, e = .defn name ps rest body ∧ okRest rest = true ∧ okName name = true ∧ name ≠ ""
+        ∧ (ps ++ rest.toList).Nodup ∧ (∀ p ∈ ps, okParam p = true) ∧ body ≠ [] ∧ FzList ex name body = true) ∨
+      (∃ ps rest body, e = .fn ps rest body ∧ okRest rest = true
+        ∧ (ps ++ rest.toList).Nodup ∧ (∀ p ∈ ps, okParam p = true) ∧ body ≠ [] ∧ FzList ex "" body = true) := by
   cases e with
+  | fn ps rest body =>
+    rw [Fs] at h
+    simp only [Bool.or_eq_true] at h
+    rcases h with h | h
+    · exact Or.inl h
+    · simp only [Bool.and_eq_true, decide_eq_true_eq, Bool.not_eq_true', List.isEmpty_eq_false_iff,
+        List.all_eq_true] at h
+      exact Or.inr (Or.inr ⟨ps, rest, body, rfl, h.1.1.1.1, h.1.1.1.2, h.1.1.2, h.1.2, h.2⟩)
   | defn name ps rest body =>
     rw [Fs] at h
     simp only [Bool.or_eq_true] at h
@@ -229,7 +241,7 @@ theorem fs_cases {ex : Bool} {self : String} {e : Expr} (h : Fs ex self e = true
     · exact Or.inl h
     · simp only [Bool.and_eq_true, bne_iff_ne, ne_eq, decide_eq_true_eq, Bool.not_eq_true', List.isEmpty_eq_false_iff,
         List.all_eq_true] at h
-      exact Or.inr ⟨name, ps, rest, body, rfl, h.1.1.1.1.1.1, h.1.1.1.1.1.2, h.1.1.1.1.2, h.1.1.1.2, h.1.1.2, h.1.2, h.2⟩
+      exact Or.inr (Or.inl ⟨name, ps, rest, body, rfl, h.1.1.1.1.1.1, h.1.1.1.1.1.2, h.1.1.1.1.2, h.1.1.1.2, h.1.1.2, h.1.2, h.2⟩)
   | _ => rw [Fs] at h; exact Or.inl h
 
 mutual
@@ -265,7 +277,7 @@ theorem fz_of_ff : ∀ (self : String) (e : Expr), Ff true self e = true → Fz 
   | self, .and_ es, h => by rw [Fz]; exact h
   | self, .or_ es, h => by rw [Fz]; exact h
   | self, .for_ l i t s b, h => by rw [Fz]; simpa using h
-  | self, .fn ps rest body, h => by rw [Fz]; exact h
+  | self, .fn ps rest body, h => by rw [Fz, h]; rfl
   | self, .defn name ps rest body, h => by rw [Fz, h]; rfl
   | self, .assign _ _, h => by simp [Ff] at h
   | self, .bad _, h => by simp [Ff] at h
